@@ -237,6 +237,10 @@ def primitives(interp):
         return TypeDesc("text", maxlen)
     ns["TextLen"] = text_len
 
+    # ---- exact comparison of a float with a rational (C14)
+    from . import floats_model
+    ns["within"] = _b("within")(floats_model.within)
+
     # ---- type descriptors for harness parameters
     ns["Int"] = TypeDesc("int", None, None)
     ns["Bool"] = TypeDesc("bool")
